@@ -376,7 +376,13 @@ pub fn post_extra(ctx: &mut StepCtx, w: &World, op: &Op, pre: &Pre, out: &Outcom
                         } else {
                             for ((la, ta), (lb, tb)) in texts.iter().zip(now.iter()) {
                                 if la != lb || ta != tb {
-                                    viols.push(mk("duplicate/file-text-differs", "", format!("file {la}/{lb}: {}", first_diff(ta, tb))));
+                                    // cause: the original holds content that is not valid in the version of its own file (built while
+                                    // the model also had a file of another version); duplicate() copies through the version filter
+                                    let invalid_original = match op {
+                                        Op::Duplicate { m } => w.models.get(*m).is_some_and(|orig| orig.files().any(|f| !f.check_version_compatibility(f.version()).0.is_empty())),
+                                        _ => false,
+                                    };
+                                    viols.push(mk("duplicate/file-text-differs", if invalid_original { "original-has-content-not-valid-in-the-version-of-its-file" } else { "" }, format!("file {la}/{lb}: {}", first_diff(ta, tb))));
                                     break;
                                 }
                             }
